@@ -773,7 +773,7 @@ func run(c Case) (o hx.Outcome) {
 		}
 		o.Nontrivial = both && ownInvalid > 0 && ownValid > 0
 	}
-	if o.Nontrivial {
+	if o.Nontrivial && c.CLI == nil {
 		o.Class("nontrivial:" + beName + ":" + c.Op)
 	}
 
@@ -1130,6 +1130,76 @@ func TestEnum(t *testing.T) {
 		what += "; sftp with states 0..2 only"
 	}
 	hx.Exhaustive(what)
+}
+
+// TestEnumUploads: a failed and a successful real upload followed by Prune, on both directory
+// backends in both modes, with the failed chunk referenced or not.
+func TestEnumUploads(t *testing.T) {
+	if hx.Shard() != 0 {
+		t.Skip()
+	}
+	defer closeSFTP()
+	for _, be := range []string{"local", "sftp"} {
+		for _, unc := range []bool{false, true} {
+			for _, keep := range []bool{false, true} {
+				for _, ups := range [][]Upload{{{Ref: 0, Block: true}}, {{Ref: 0}}, {{Ref: 1, Block: true}, {Ref: 0, Block: true}, {Ref: 2}}} {
+					c := Case{Backend: be, Uncompressed: unc, Op: "prune", Uploads: ups,
+						Chunks: []ChunkSpec{{Seed: 21, Len: 30, Keep: keep}, {Seed: 22, Len: 31, Keep: !keep}, {Seed: 23, Len: 200, C: 1, U: 1, Keep: keep}},
+						Extras: []Extra{{Kind: "junk", Where: 0, Form: 0, Seed: 2}, {Kind: "tmp", Where: 1, Form: 0, Seed: 77}, {Kind: "sftptmp", Form: 0, Seed: 88}}}
+					if !hx.Case(t, spec, c) {
+						return
+					}
+				}
+			}
+		}
+	}
+	hx.Exhaustive("real uploads (rename blocked / successful) followed by prune: backend(local,sftp) x mode x referenced/not")
+}
+
+// TestEnumCLI: four index files of 1, 3, 5 and 2 entries (overlapping and disjoint, caibx and
+// caidx) over ten stored chunks; `desync prune` with every order of every non-empty subset, in
+// both store modes. The work is spread over the shards.
+func TestEnumCLI(t *testing.T) {
+	if cliBin() == "" {
+		t.Skip("VERIF_DESYNC_BIN not set")
+	}
+	pool := []CLIIndex{{Chunks: []int{0}}, {Chunks: []int{1, 2, 3}, Caidx: true}, {Chunks: []int{3, 4, 5, 6, 0}}, {Chunks: []int{7, 7}, Caidx: true}}
+	var orders [][]int
+	var permute func(cur []int, used int)
+	permute = func(cur []int, used int) {
+		if len(cur) > 0 {
+			orders = append(orders, append([]int(nil), cur...))
+		}
+		for i := range pool {
+			if used&(1<<i) == 0 {
+				permute(append(cur, i), used|1<<i)
+			}
+		}
+	}
+	permute(nil, 0)
+	var chunks []ChunkSpec
+	for i := 0; i < 10; i++ {
+		chunks = append(chunks, ChunkSpec{Seed: uint64(100 + i), Len: 20 + 7*i, C: 1, U: 1})
+	}
+	extras := []Extra{{Kind: "junk", Where: 0, Form: 0, Seed: 2}, {Kind: "junk", Where: 1, Form: 6, Seed: 3}, {Kind: "tmp", Where: 1, Form: 0, Seed: 77}}
+	i := 0
+	for _, unc := range []bool{false, true} {
+		for _, ord := range orders {
+			i++
+			if i%hx.Shards() != hx.Shard() {
+				continue
+			}
+			cl := &CLICase{Long: i%2 == 0, Cfg: []string{"flag", "home"}[i/2%2]}
+			for _, k := range ord {
+				cl.Indexes = append(cl.Indexes, pool[k])
+			}
+			c := Case{Backend: "local", Uncompressed: unc, Op: "prune", Chunks: chunks, Extras: extras, CLI: cl}
+			if !hx.Case(t, spec, c) {
+				return
+			}
+		}
+	}
+	hx.Exhaustive("desync prune (child process): every order of every non-empty subset of four index files of 1/3/5/2 entries x store mode")
 }
 
 func TestProp(t *testing.T) { hx.Prop(t, spec) }
